@@ -92,7 +92,7 @@ def _rand_floor(rng, rs, c, d, scale2):
 def _gen_chain(rng, is_machine):
     chain = []
     # (a tail of long chains: ten and more save -> load generations)
-    for _ in range(rng.randint(1, 4) if rng.random() < 0.93 else rng.randint(8, 45)):
+    for _ in range(rng.randint(1, 4) if rng.random() < 0.95 else rng.randint(8, 30)):
         step = {"save_by": rng.choice(["path", "file"]),
                 "reload": rng.choice(["from_path", "from_file", "load_same", "load_other_shape",
                                       "load_rollback"]),
@@ -410,6 +410,7 @@ def _load_others(kind, case, store, rec, n, held, prior=None):
     """Save and load n OTHER objects of the same shape but other content; they stay alive."""
     from bob.learn.em import GMMMachine, GMMStats
     c, d = case["c"], case["d"]
+    n = min(n, max(0, 48 - len(held)))  # (bounded: a few dozen live objects per history)
     for j in range(n):
         k = len(held) + 1
         path = store.slot()
